@@ -718,7 +718,12 @@ impl Open for VirtualSystem {
             /* is_nonblocking = */ false,
         )));
         let fd = self.create_fd(open_file_description, OpenFlag::Directory.into())?;
-        self.fdopendir(fd)
+        let dir = self.fdopendir(fd);
+        // The virtual directory stream has copied the entries and does not
+        // use the file descriptor any more. (A real directory stream owns its
+        // file descriptor and closes it when dropped.)
+        self.current_process_mut().close_fd(fd);
+        dir
     }
 }
 
